@@ -230,7 +230,8 @@ impl Check for C17 {
             c.keepalive = 0;
             c
         };
-        let steps = if workload == 1 { if tier == Tier::Quick { 1500 } else { 10_000 } } else { rng.range(20, 160) };
+        // under Miri (about 1000x slower) the histories are kept short
+        let steps = if workload == 1 { if tier == Tier::Quick { 1500 } else { 10_000 } } else if cfg!(miri) { rng.range(10, 40) } else { rng.range(20, 160) };
         let mut g = Gen::new(rng.next(), profile.clone());
         g.steps_left = steps;
         if workload == 1 {
